@@ -58,7 +58,7 @@ class WCA(Optimizer):
         if not isinstance(nsr, int):
             raise e.TypeError('`nsr` should be an integer')
         if nsr < 1:
-            raise e.ValueError('`nsr` should be > 1')
+            raise e.ValueError('`nsr` should be > 0')
 
         self._nsr = nsr
 
